@@ -4,9 +4,17 @@ From Muscle Require Import Cont.StrL0 Cont.StrModel Cont.StrLemmas Cont.StrGrow.
 Import ListNotations.
 Local Open Scope N_scope.
 
+(* every lemma of the section takes all the section variables and hypotheses, in this order *)
+Set Default Proof Using "All".
+
 Section Core.
 Variables (M TH PG OV jk : N).
 Hypothesis M_pos : 1 <= M.
+Hypothesis TH_ge : 2 <= TH.
+Hypothesis PG_pos : 0 < PG.
+Hypothesis PG_le : PG <= 1048576.
+Hypothesis OV_lt : OV < PG.
+Hypothesis M_le : M <= 1048576.
 
 Local Notation slen := (slen M).
 Local Notation cap := (cap M).
@@ -253,11 +261,6 @@ Proof.
 Qed.
 
 (* with the repaired size check, requests up to 2^30 bytes always succeed *)
-Hypothesis TH_ge : 2 <= TH.
-Hypothesis PG_pos : 0 < PG.
-Hypothesis PG_le : PG <= 1048576.
-Hypothesis OV_lt : OV < PG.
-Hypothesis M_le : M <= 1048576.
 
 Lemma ensure_ok s req retain : inv s -> req <= 1073741824 -> fst (ensure s req retain false) = StOk.
 Proof.
